@@ -6,6 +6,7 @@ import (
 	"fmt"
 	"go/token"
 	"go/types"
+	"os"
 	"sort"
 	"strings"
 
@@ -197,6 +198,10 @@ func runC16(c *Ctx) {
 			}
 			g := NewGate(c.P)
 			g.Inline = inlineOnly("(*rules.NetworkRule).setOptionEnabled", "(*rules.NetworkRule).IsOptionEnabled")
+			g.Unroll, g.ConstTables = true, true // the bits of a modifier kept in a constant table and applied in a loop
+			if os.Getenv("UFCHECK_DEBUG_C16") != "" {
+				g.Unroll = false
+			}
 			ps := g.ParamExprs(lo)
 			u := g.U
 			args := []*E{ps[0], u.Str(mod), u.Str("")}
@@ -207,6 +212,13 @@ func runC16(c *Ctx) {
 			for k, v := range s.Mem {
 				if strings.HasSuffix(k, "faddr<enabledOptions>("+ps[0].key+")") {
 					final = v
+				}
+			}
+			if os.Getenv("UFCHECK_DEBUG_C16") != "" && mod == "document" {
+				for k, v := range s.Mem {
+					if strings.Contains(k, "enabledOptions") {
+						fmt.Println("MEM", k, "=", clip(u.Show(v), 600))
+					}
 				}
 			}
 			key := "loadOption[$" + mod + "]"
